@@ -97,7 +97,7 @@ var enumKeyRe = regexp.MustCompile(`"(relationshipType|primaryPackagePurpose|alg
 func varyEnumCase(r *rand.Rand, b []byte) []byte {
 	return enumKeyRe.ReplaceAllFunc(b, func(m []byte) []byte {
 		sub := enumKeyRe.FindSubmatch(m)
-		if r.Intn(2) == 0 {
+		if r.Intn(3) == 0 {
 			return m
 		}
 		v := string(sub[2])
@@ -145,7 +145,7 @@ func genC17(verifSeed int64, tier string, idx int) *core.Scenario {
 			if err != nil {
 				b = repoFile("bom-1.4.json") // the serializer refused a workload document: fixed input instead
 			}
-			if r.Intn(3) == 0 {
+			if r.Intn(2) == 0 {
 				b = varyEnumCase(r, b) // producers spell enumerated values in other cases
 			}
 		}
